@@ -146,11 +146,12 @@ def run(ctx):
         st = one([s for s in E.rng_sites(evt) if s.kind == 'draw'], lambda s: True)
         cm = T.atoms(T.tup(*all_terms(evt)), lambda x: x[0] == 'cmp' and st is not None and contains(x, st.res))
         site(ctx, 'build_tree', 'merge-U', evt, st, ('rng_random',), 'StandardUniform<f64>', cm, 'subtree selection uses a fresh uniform', gen='rng')
-    b = ctx.anchor('NUTS.init_chain', name='init_chain', self_head='nuts::NUTSChain', container='inherent')
+    b = ctx.helper('nuts.init_chain')
+    frekey = ctx.helper_key('nuts.fre', 'nuts::find_reasonable_epsilon')
     if b is not None:
-        ev = ctx.evaluate(b, no_inline=('nuts::find_reasonable_epsilon',))
+        ev = ctx.evaluate(b, no_inline=(frekey,))
         s = one(E.rng_sites(ev), lambda s: s.kind == 'draw')
-        fr = ev.events(lambda e: e.key == 'nuts::find_reasonable_epsilon')
+        fr = ev.events(lambda e: e.key == frekey)
         site(ctx, 'NUTSChain::init_chain', 'momentum', ev, s, ('sample_iter',), 'StandardNormal', [fr[0].args[1]] if fr else [], 'heuristic uses a standard-normal momentum')
     # ---- Categorical
     b = ctx.anchor('Cat.sample', name='sample', trait='distributions::Discrete', self_head='distributions::Categorical')
@@ -160,7 +161,7 @@ def run(ctx):
         cm = T.atoms(T.tup(*all_terms(ev)), lambda x: x[0] == 'cmp' and s is not None and contains(x, s.res))
         site(ctx, 'Categorical::sample', 'variate', ev, s, ('rng_random',), 'StandardUniform', cm, 'inverse-CDF variate uniform on [0,1)')
     # ---- initial positions
-    b = ctx.anchor('_init', path='core::_init')
+    b = ctx.helper('core._init')
     if b is not None:
         ev = ctx.evaluate(b)
         s = one(E.rng_sites(ev), lambda s: s.kind == 'draw')
